@@ -804,7 +804,10 @@ class ModuleNormaliser:
                         not any(isinstance(e, ast.Starred) for e in s.value.elts):
                     tn = {U(t) for t in s.targets[0].elts}
                     used = {U(x) for e in s.value.elts for x in ast.walk(e) if isinstance(x, (ast.Name, ast.Attribute))}
-                    if not (tn & used) and len(tn) == len(s.targets[0].elts) and all(self.pure(e) for e in s.value.elts):
+                    # values are evaluated left to right and then bound left to right: splitting keeps that order as long as
+                    # no value reads a target (for plain names, binding has no other effect)
+                    if not (tn & used) and len(tn) == len(s.targets[0].elts) and (
+                            all(self.pure(e) for e in s.value.elts) or all(isinstance(t, ast.Name) for t in s.targets[0].elts)):
                         new = []
                         for t, e in zip(s.targets[0].elts, s.value.elts):
                             a = ast.Assign(targets=[t], value=e)
